@@ -122,6 +122,8 @@ func init() {
 		Technique: "contract-based deductive verification: complete SSA enumeration of bank mint/burn call sites, each inside a function whose `mints`/`burns` contract clause (denoms with non-zero amount belong to the site's class) is discharged by path VCs; migration-only reachability and module-permission cross-checks"})
 	register(&PropSpec{ID: "C19", Level: "proof", Contracts: true, Extra: c19Extra,
 		Technique: "frame and purity obligations over go/ssa (contract-style sufficient conditions): no package-level or keeper-field state, no nondeterministic source (wall clock only into telemetry), every map range in an order-independent form"})
+	register(&PropSpec{ID: "C16", Level: "proof", Contracts: true, Extra: c16Extra,
+		Technique: "contract-based deductive verification: byte-level key lemmas over spec functions extracted mechanically from the real key builders (SMT strings), lookup/feed/expiry contracts over the ghost price table; VCs from go/ssa discharged by z3/cvc5"})
 	register(&PropSpec{ID: "C14", Level: "proof", Contracts: true,
 		Technique: "contract-based deductive verification: strongest postcondition of VestedSoFar against the linear spec function, claim/cancel delta contracts, VCs from go/ssa discharged by z3/cvc5"})
 }
